@@ -18,7 +18,7 @@ RULE = ('0-4 metric definitions (types COUNTER / GAUGE / HISTOGRAM / SUMMARY in 
         'float (OverflowError) / objects whose __float__ raises, returns a non-float or converts / naming host globals '
         'and agent-only names; namespace absent / empty / given; help, unit absent or given) x 0-3 recording processors (some are '
         'falsy objects: __len__ = samples recorded so far, or __bool__ False), '
-        'each failing on a chosen set of attempts, x 1-4 hits with fire_count / fire_period and a per-hit condition '
+        'label / value expressions whose text is 1024 / 1025 / 2000 / 200000 characters; each failing on a chosen set of attempts, x 1-4 hits with fire_count / fire_period and a per-hit condition '
         '(true / false / raising) through the real TriggerHandler.trace_call on frame-like mocks or REAL frames. '
         'Non-trivial: at least 2 calls expected, or no processor with a permitted hit, or a failing processor beside a '
         'healthy one. Stream prom (every 5th case): 1-8 operations (counter / gauge / histogram / summary; 1-3 metric '
@@ -56,7 +56,7 @@ LOCALS = [['w', 'a  b\tc'], ['n', 7], ['neg', -3], ['z', 0], ['f', 2.5], ['small
           ['p53', 2 ** 53 + 1], ['d17', '12345678901234567'], ['over', '1e400'], ['under', '1e-400'],
           ['edge', 2 ** 1024 - 2 ** 970], ['edge1', 2 ** 1024 - 2 ** 970 - 1], ['d16', '0.1234567890123456']]
 GLOBALS = {'GNUM': 42, 'GSTR': 'glob', 'GF': 0.125, 'uuid': 'host-uuid', **X.SHADOW_GLOBALS}
-LOCALS = LOCALS + X.SHADOW_LOCALS          # locals that shadow a module-level name of the host file
+LOCALS = LOCALS + [['ls', 'L' * 1025]] + X.SHADOW_LOCALS          # locals that shadow a module-level name of the host file
 VALUE_EXPRS = [None, None, '', 'n', 'neg', 'z', 'f', 'small', 't', 'fl', 's', 'num', 'dec', 'und', 'dot', 'badnum', 'e',
                'nothing', 'lst', 'o.w', 'big', 'negz', 'plus', 'n + 1', 'n * f', 'len(lst)', 'GNUM', 'GF', 'GNUM + n',
                'nope', 'n / 0', "boom('HostInterrupt', '5')", 'time_ns()', 'FrameType', 'twice(n)', 'o', 'n > 3',
@@ -68,6 +68,10 @@ BOUNDARY_EXPRS = ['p53', 'd17', 'over', 'under', 'edge1', 'd16', 'p53 * 3', 'e22
 LABEL_EXPRS = ["'x  y'", 'w', "w.replace('  ', '_')", "'a\t\tb'", 'nostr', 'n', 's', 'f', 'o.name', 'GSTR', 'uuid', 'nope', 'n / 0', 'lst', 'nothing', 't', "boom('SystemExit', 2)",
                'FrameType', 'e', "d['x']" if False else 'len(s)']
 LABEL_EXPRS = LABEL_EXPRS + X.SHADOW_TEXT_EXPRS
+# label (and value) texts longer than any collection limit: a label is the text of the expression, whole
+LONG_LABEL_EXPRS = ['ls', "'ab' * 1000", 'list(range(400))', "ls + '!'", "'k' * 1024", "'k' * 1025", "{'key': ls}"]
+LABEL_EXPRS = LABEL_EXPRS + LONG_LABEL_EXPRS
+VALUE_EXPRS = VALUE_EXPRS + ["' ' * 2000 + '7'", "'0' * 1500 + '12'", 'len(ls)']
 STATICS = ['x', 'static value', '', 5, True, None, 'ünï', 1.5]
 KEYS = ['k', 'env', 'k', 'path', 'a', 'b']
 NAMES = ['hits', 'orders_total', 'm', 'latency']
@@ -159,6 +163,9 @@ def corpus():
                    {'ts': 7, 'cond': t}, {'ts': 9 * 10 ** 9, 'cond': t}]),
         dict(base, defs=[d1], procs=[{'fails': [], 'falsy': 'len'}], hits=[{'ts': 5, 'cond': t}, {'ts': 6, 'cond': t}]),
         dict(base, defs=[d1, d2], procs=[{'fails': [], 'falsy': 'bool'}, {'fails': [0], 'falsy': 'len'}], hits=[{'ts': 5, 'cond': t}]),
+        dict(base, defs=[dict(d2, labels=[{'key': 'big', 'static': None, 'expr': "'z' * 200000"},
+                                          {'key': 'l', 'static': None, 'expr': 'ls'}], expr="' ' * 2000 + '7'")],
+             procs=[{'fails': []}], hits=[{'ts': 5, 'cond': t}]),
         dict(base, stream='badtype', defs=[dict(d1, type='TIMER'), d2], procs=[{'fails': []}], hits=[{'ts': 5, 'cond': t}]),
     ] + PROM.corpus()
 
